@@ -46,12 +46,25 @@ PUSHED = [b"x-forwarded-for", b"forwarded", b"x-real-ip", b"x-forwarded-port", b
 
 
 def _fact(fails, what, assumed, fn, hard=False):
+    """SOFT (`unreadable:`) only when the construct cannot be found at all (function gone / renamed); found but
+    different or not understood is a HARD failure (when in doubt, hard)."""
     try:
         d = fn()
         if d:
             fails.append("%s: %s (the model assumes %s)" % (what, d, assumed))
+    except F.Unreadable as ex:
+        if not hard and (getattr(ex, "absent", False) or re.match(r"fn \w+ not found", str(ex))):
+            fails.append("unreadable: %s: %s; the model assumes %s" % (what, ex, assumed))
+        else:
+            fails.append("%s: not the modelled construct: %s (the model assumes %s)" % (what, ex, assumed))
     except Exception as ex:
-        fails.append("%s%s: %s; the model assumes %s" % ("" if hard else "unreadable: ", what, ex if isinstance(ex, F.Unreadable) else repr(ex), assumed))
+        fails.append("%s: not the modelled construct: %r (the model assumes %s)" % (what, ex, assumed))
+
+
+def _absent(msg):
+    ex = F.Unreadable(msg)
+    ex.absent = True
+    return ex
 
 
 def _names(text):
@@ -95,6 +108,9 @@ def translate():
             t = m.group(1)
             got.append(F.unescape(t[2:-1]).lower() if t.startswith('b"') else b"<id>")
         got = [g for g in got if g != b"traceparent"]     # cfg(feature = "opentelemetry"), off in the build
+        if len(got) < len(PUSHED) and re.search(r"\bfn\s+\w+\([^)]*\)\s*\{[^{}]*push_block\(\s*(?:kawa::)?Block::Header", ed):
+            # the pushes go through a private helper: the literal `key: Store::..` blocks are not all in this function
+            raise _absent("header blocks pushed here: %r (others through a helper)" % got)
         if sorted(got) != sorted(PUSHED):
             raise F.Unreadable("header blocks pushed: %r" % got)
         return None if got == PUSHED else "headers are pushed in the order %r" % got
@@ -129,6 +145,8 @@ def translate():
     def call_sites():
         h1, h2 = rd("lib/src/protocol/mux/h1.rs"), rd("lib/src/protocol/mux/h2.rs")
         n1, n2 = len(re.findall(r"\belide_proxy_owned_trailers\s*\(", h1)), len(re.findall(r"\belide_proxy_owned_trailers\s*\(", h2))
+        if n1 == 0 and n2 == 0:
+            raise _absent("no call to elide_proxy_owned_trailers in h1.rs / h2.rs")
         if n1 < 2 or n2 < 1:
             raise F.Unreadable("elide_proxy_owned_trailers is called %d time(s) in h1.rs and %d in h2.rs" % (n1, n2))
     _fact(fails, "h1.rs / h2.rs trailer filtering", "both H1 parse sites and the H2 trailer path call elide_proxy_owned_trailers", call_sites)
